@@ -668,4 +668,59 @@ theorem sumL_nonneg (l : List ℚ) (h : ∀ x ∈ l, 0 ≤ x) : 0 ≤ sumL l := 
     have := h a (by simp)
     simp only [List.sum_cons]; linarith
 
+/-- the interpolant of samples lying on a line is that line (inside the sampled range) -/
+theorem seg_linear (a b : ℚ) : ∀ (xs : List ℚ) (x : ℚ), StrictInc xs → 2 ≤ xs.length →
+    (∀ l, xs.getLast? = some l → x ≤ l) → seg xs (xs.map fun t => a * t + b) x = a * x + b := by
+  intro xs
+  induction xs with
+  | nil => intro x _ h; simp at h
+  | cons x0 xs ih =>
+    intro x hs h2 hl
+    cases xs with
+    | nil => simp at h2
+    | cons x1 rest =>
+      have h01 : x0 < x1 := (List.pairwise_cons.mp hs).1 x1 (by simp)
+      simp only [List.map_cons, seg]
+      by_cases hx1 : x ≤ x1
+      · simp only [hx1, if_true]
+        have hd : x1 - x0 ≠ 0 := by linarith [h01]
+        field_simp
+        ring
+      · simp only [hx1, if_false]
+        have hrest : rest ≠ [] := by
+          intro hr; subst hr
+          have := hl x1 (by simp); exact hx1 this
+        have := ih x (List.pairwise_cons.mp hs).2
+          (by cases rest with
+              | nil => exact absurd rfl hrest
+              | cons _ _ => simp)
+          (fun l hl' => hl l (by rw [List.getLast?_cons_cons]; exact hl'))
+        simpa using this
+
+theorem interpAt_linear (a b fl fr : ℚ) (xs : List ℚ) (x lo hi : ℚ) (hs : StrictInc xs) (h2 : 2 ≤ xs.length)
+    (hlo : xs.head? = some lo) (hhi : xs.getLast? = some hi) (h1 : lo ≤ x) (h3 : x ≤ hi) :
+    interpAt xs (xs.map fun t => a * t + b) fl fr x = a * x + b := by
+  unfold interpAt
+  simp only [hlo, hhi, not_lt.mpr h1, not_lt.mpr h3, if_false]
+  exact seg_linear a b xs x hs h2 (fun l hl => by rw [hhi] at hl; cases hl; exact h3)
+
+/-- exact integrals of the line a·λ + b over consecutive edges -/
+def exactBins (a b : ℚ) : List ℚ → List ℚ
+  | x0 :: x1 :: xs => (a * (x1 ^ 2 - x0 ^ 2) / 2 + b * (x1 - x0)) :: exactBins a b (x1 :: xs)
+  | _ => []
+
+theorem trapzBins_linear (a b : ℚ) : ∀ x : List ℚ, trapzBins x (x.map fun t => a * t + b) = exactBins a b x := by
+  intro x
+  induction x with
+  | nil => rfl
+  | cons x0 x ih =>
+    cases x with
+    | nil => rfl
+    | cons x1 xs =>
+      simp only [List.map_cons] at ih ⊢
+      simp only [trapzBins, exactBins, ih, Gen.trapzTerm]
+      congr 1
+      ring
+
+
 end Lentil.Spec
